@@ -23,8 +23,13 @@ PLAN = {
 # second round (C, D): by default the seed's own property; neighbours are added by hand below
 PLAN.update({"C04D": "C04 C01 C03", "C10C": "C10 C12", "C02C": "C02 C06 C08", "C03D": "C03 C01 C05"})
 for _p in range(1, 21):
-    for _x in "CDEFGHIJKL":
+    for _x in "CDEFGHIJKLMN":
         PLAN.setdefault(f"C{_p:02d}{_x}", f"C{_p:02d}")
+
+
+# seeds that a later `fix:` commit in /repo made harmless: the seed's own demonstration passes with the patch applied on the
+# repaired library, so there is nothing left to catch (kept for the record, not run)
+NEUTRALISED = {"C17L": "d95d431 (ViperBinder.Get hands out deep copies: the fast path stores a private copy, the demo passes)"}
 
 
 def first_lines(path, n=12):
@@ -36,6 +41,9 @@ def first_lines(path, n=12):
 
 def run_seed(sid):
     checks = PLAN[sid].split()
+    if sid in NEUTRALISED:
+        return sid, {c: {"verdict": "neutralised by fix " + NEUTRALISED[sid], "model_mismatches": None,
+                         "oracle_failures": None} for c in checks}
     patch = os.path.join(SEEDED, sid, "patch.diff")
     p = subprocess.run([os.path.join(VERIF, "lib", "seedtest.sh"), patch, sid] + checks,
                        stdout=subprocess.PIPE, stderr=subprocess.STDOUT, text=True, timeout=7200)
